@@ -665,6 +665,30 @@ impl<'a> VisitMut for Rewriter<'a> {
                     strip_vx_ord(&mut t.attrs);
                 }
             }
+            Expr::Closure(c) => {
+                // R27: destructuring closure parameters -> plain parameter + `let` (language definition)
+                let mut lets: Vec<Stmt> = vec![];
+                for (pi, p) in c.inputs.iter_mut().enumerate() {
+                    let inner_is_ident = match p {
+                        syn::Pat::Ident(_) => true,
+                        syn::Pat::Type(t) => matches!(&*t.pat, syn::Pat::Ident(_)),
+                        syn::Pat::Wild(_) => true,
+                        _ => false,
+                    };
+                    if !inner_is_ident {
+                        let v = syn::Ident::new(&format!("vx_p{}", pi), proc_macro2::Span::call_site());
+                        let pat = p.clone();
+                        lets.push(parse_quote!(let #pat = #v;));
+                        *p = parse_quote!(#v);
+                    }
+                }
+                if !lets.is_empty() {
+                    let body = &c.body;
+                    let nb: Expr = parse_quote!({ #(#lets)* #body });
+                    c.body = Box::new(nb);
+                    self.logr("R27", line, "destructuring closure parameter -> plain parameter + let");
+                }
+            }
             Expr::MethodCall(mc) => {
                 // R23: `Enum::Variant` passed as a function value -> the closure it denotes
                 let nsyn = self.synth.len();
